@@ -1,0 +1,6 @@
+//go:build !verif
+
+package protocol
+
+// verifPoint is a no-op unless the "verif" build tag is set.
+func verifPoint(id int) {}
